@@ -3,7 +3,10 @@ package c11
 
 import (
 	"bytes"
+	"crypto/rand"
+	"errors"
 	"fmt"
+	"io"
 
 	"filippo.io/age"
 	"filippo.io/age/xverif/internal/coregen"
@@ -22,6 +25,9 @@ func Run(tier string) {
 	w.Identity("x1")
 	vk.Parallel(len(cases), 16, func(i int) {
 		c := &cases[i]
+		if c.Enc.Why == "ambiguous" {
+			return // set reading and list reading of the property differ: no verdict
+		}
 		var buf bytes.Buffer
 		cw := &coregen.CountingWriter{W: &buf}
 		wc, err := age.Encrypt(cw, coregen.Recipients(w, c.Rs)...)
@@ -69,8 +75,83 @@ func Run(tier string) {
 		}
 		run.Distinct("scrypt+" + name)
 	}
+	randFaults(run, w)
 	if run.Thorough() {
 		run.Exhaustive()
 	}
 	run.Finish()
+}
+
+// failingRand fails its n-th Read (1-based) and passes the others through.
+type failingRand struct {
+	inner io.Reader
+	n     int
+	calls int
+	Fired bool
+}
+
+func (f *failingRand) Read(p []byte) (int, error) {
+	f.calls++
+	if f.calls == f.n {
+		f.Fired = true
+		return 0, errors.New("injected CSPRNG failure")
+	}
+	return f.inner.Read(p)
+}
+
+// randFaults: the CSPRNG fails at the k-th draw of Encrypt (a recipient then fails to wrap, or the file key or nonce cannot
+// be drawn): Encrypt must refuse with nothing written, or the file must be complete and decryptable.
+func randFaults(run *vk.Run, w *world.World) {
+	lists := map[string]func() ([]age.Recipient, age.Identity){
+		"x1": func() ([]age.Recipient, age.Identity) { return []age.Recipient{w.Recipient("x1")}, w.Identity("x1") },
+		"x1,x1": func() ([]age.Recipient, age.Identity) {
+			return []age.Recipient{w.Recipient("x1"), w.Recipient("x1")}, w.Identity("x1")
+		},
+		"scrypt": func() ([]age.Recipient, age.Identity) {
+			r, _ := age.NewScryptRecipient("pw-c11")
+			r.SetWorkFactor(2)
+			i, _ := age.NewScryptIdentity("pw-c11")
+			return []age.Recipient{r}, i
+		},
+		"e1,x1": func() ([]age.Recipient, age.Identity) {
+			return []age.Recipient{w.Recipient("e1"), w.Recipient("x1")}, w.Identity("e1")
+		},
+	}
+	saved := rand.Reader
+	defer func() { rand.Reader = saved }()
+	for name, mk := range lists {
+		for k := 1; k <= 6; k++ {
+			rs, id := mk()
+			fr := &failingRand{inner: saved, n: k}
+			var buf bytes.Buffer
+			cw := &coregen.CountingWriter{W: &buf}
+			var wc io.WriteCloser
+			var err error
+			var pan interface{}
+			func() {
+				defer func() { pan = recover() }()
+				rand.Reader = fr
+				defer func() { rand.Reader = saved }()
+				wc, err = age.Encrypt(cw, rs...)
+			}()
+			run.Eval(1)
+			if pan != nil || !fr.Fired {
+				continue // this toolchain aborts on CSPRNG failure, or the list draws fewer values
+			}
+			sig := fmt.Sprintf("randfault/%s/draw%d", name, k)
+			if err != nil {
+				if cw.Bytes != 0 {
+					run.Violation("C11:bytes-written-on-refusal:"+sig, fmt.Sprintf("recipients [%s], CSPRNG failing at draw %d: Encrypt refused (%v) after writing %d bytes", name, k, err, cw.Bytes), nil)
+				}
+			} else {
+				wc.Write([]byte("x"))
+				wc.Close()
+				r, derr := age.Decrypt(bytes.NewReader(buf.Bytes()), id)
+				if derr != nil || r == nil {
+					run.Violation("C11:wrap-failure-not-refused:"+sig, fmt.Sprintf("recipients [%s], CSPRNG failing at draw %d (a recipient could not wrap the file key): Encrypt did not refuse and wrote %d bytes that do not decrypt (%v)", name, k, cw.Bytes, derr), nil)
+				}
+			}
+			run.Distinct(sig)
+		}
+	}
 }
